@@ -21,6 +21,15 @@ def run(chk):
                     p = B.movr(6, 1) + B.alu('add', 6, imm=8 + d) + B.load_const(3, add) + B.xadd(sz, 6, 3, 0) + B.xadd(sz, 6, 3, 0) + \
                         B.mov(0, 0) + B.EXIT
                     cases.append(Case(p, mem=bytes((9 * i + 1) & 255 for i in range(40)), fam='single:%s:%d' % (sz, d)))
+        # every (base, addend) register pair: each pair is a different machine encoding under the JIT
+        for sz, n in (('w', 4), ('dw', 8)):
+            for base in range(1, 10):
+                for val in range(0, 10):
+                    if val == base:
+                        continue
+                    p = (B.movr(base, 1) if base != 1 else b'') + B.alu('add', base, imm=8) + B.load_const(val, rng.choice([1, 2 ** 32 - 1, 2 ** 64 - 1, rng.next()])) + \
+                        B.xadd(sz, base, val, 8) + B.mov(0, 0) + B.EXIT
+                    cases.append(Case(p, mem=bytes((5 * i + 2) & 255 for i in range(40)), fam='regs:%s:0' % sz))
         answers, bad, skipped = run_cases(chk, 'C18', cases, binary)
         for i, cd in bad:
             found = True
@@ -60,7 +69,7 @@ def run(chk):
                                'meaning': 'concurrent atomic adds lost an update or touched a neighbouring byte'})
         chk.cov['evaluations'] = len(cases) + len(lines)
         chk.cov['distinct_nontrivial'] = len(cases) + len(lines)
-        chk.cov['rule'] = ('single execution: 2 widths x 9 alignments x 5 addends (interpreter = model = spec; JIT and Cranelift = interpreter on '
+        chk.cov['rule'] = ('single execution: 2 widths x 9 alignments x 5 addends and 2 widths x every (base, addend) register pair (interpreter = model = spec; JIT and Cranelift = interpreter on '
                            'aligned addresses); concurrent: engines {interp, jit, cl, mixes} x width x thread counts with %d adds per thread on a shared '
                            'word in registered memory, final value and neighbouring bytes checked; all non-trivial' % adds)
         chk.cov['input_distribution'] = {'single': len(cases), 'concurrent_runs': len(lines)}
